@@ -14,11 +14,11 @@ func VerifC15KeysMalformed() {
 	pos := vCase("pos")
 	if fn == 1 {
 		vAssume(!vWF(s, 4))
-	vAssume(vIdxMax(s, 8)) // numeric fields of the malformed ID stay within the index range of zoom 3
+		vAssume(vIdxMax(s, 8)) // numeric fields of the malformed ID stay within the index range of zoom 3
 		vAssume(vZoomMax(s, 0, 3))
 	} else {
 		vAssume(!vWF(s, 5))
-	vAssume(vIdxMax(s, 8)) // numeric fields of the malformed ID stay within the index range of zoom 3
+		vAssume(vIdxMax(s, 8)) // numeric fields of the malformed ID stay within the index range of zoom 3
 		vAssume(vZoomMax(s, 0, 3) && vZoomMax(s, 3, 3))
 	}
 	good := vGood5
